@@ -20,7 +20,7 @@ M(ps) == MapV(ps)
 UCore == <<
   BigV(FALSE, <<49, 56, 52, 52, 54, 55, 52, 52, 48, 55, 51, 55, 48, 57, 53, 53, 49, 54, 49, 53>>),
   Nil, Bool(TRUE), Bool(FALSE),
-  IntV(0 - 1), IntV(0), IntV(1), IntV(2),
+  IntV(0 - 1), IntV(0), IntV(1), IntV(2), IntV(97),
   Flt(0 - 1, 2), Flt(0, 1), Flt(1, 1), Flt(3, 2), Flt(5, 2),
   S(<<>>), S(<<97>>), S(<<97, 98>>), S(<<98>>), S(<<66>>), S(<<49>>),
   Arr(<<>>), Arr(<<IntV(1)>>), Arr(<<IntV(1), IntV(2)>>), Arr(<<Flt(1, 1)>>), Arr(<<S(<<97>>)>>), Arr(<<Nil>>),
